@@ -140,15 +140,15 @@ func run(c *lib.Ctx) {
 		"light blocks with count != hash list, negative, 0, 2^14..22, >= 2^45 and (one per batch) 2^36, light blocks whose short hash resolves to a group that runs past the end of the block with the group reaching the pool before or after the block is pending, " +
 		"direct subscriber-path injection on all topics, floods of block requests followed by chain growth. Every scenario is logged to disk before execution. " +
 		"Oracle: the child survives (also under -race/checkptr) and, after the batch, 13 well-formed probes are processed within the bound: block/tx/batch via pubsub, pending-loop completion and timeout request, block-request loop, four stream protocols, a download task, the peer-info refresh loop, the denied-peer loop. " +
-		"non-trivial batch = >= 1 injection on each of the stream, pubsub, handler and reply paths and all probes answered; fingerprint = batch seed")
+		"Block-topic heights above 2^20 are only sent in the last 15% of a batch (they close the validator's height window, F-C33-4). non-trivial batch = >= 1 injection on each of the stream, pubsub, handler and reply paths and every probe answered (or diagnosed as the known height-window poisoning); fingerprint = batch seed")
 	c.Assume("liveness restated as bounded: each probe (retried with fresh messages) must succeed within 90 s; every probed loop ticks at <= 3 s",
 		"the blockchain module behind the queue answers every broadcast block (accept, or reject for the denied-peer probe) and holds a block for every height <= its current height",
 		"allocation sizes that merely exhaust the machine (several hundred MB per message) are not generated in bulk; a single 2^36-count light block per batch probes the unbounded allocation",
 		"data-race reports of the race children are counted, not deciding (the property is about crashes); checkptr faults and fatal errors kill the child and decide")
-	nPlain, nRace := c.N(14, 300), c.N(6, 60)
-	perPlain, perRace := 320, 100 // scenarios per batch
+	nPlain, nRace := c.N(14, 120), c.N(4, 16)
+	perPlain, perRace := 400, 60 // scenarios per batch
 	if !c.Quick() {
-		perPlain, perRace = 1500, 500
+		perPlain, perRace = 1500, 300
 	}
 	type job struct {
 		idx  int
@@ -179,6 +179,10 @@ func run(c *lib.Ctx) {
 		}
 		if rng.Chance(50) {
 			in.VerLimit = "1.60.0"
+		}
+		in.FutureAt = -1
+		if j.idx%4 == 1 { // every fourth batch ends with a block of height 2^63-1 (F-C33-4)
+			in.FutureAt = j.n - 21
 		}
 		return in
 	}
@@ -235,12 +239,23 @@ func run(c *lib.Ctx) {
 				continue
 			}
 			_, scen, _ := readLog(in.LogPath)
+			fmt.Fprintf(os.Stderr, "")
 			c.Violation(j.idx, "loop-dead:"+p.Name, map[string]any{"batch": in, "probe": p, "scenarios_executed": len(scen), "log_tail": tail(in.LogPath, 6)},
 				"batch %d: after %d hostile scenarios the well-formed probe %q was not processed (%d tries over %d ms, bound %v; %s): the receive path / background loop behind it no longer works",
 				j.idx, len(scen), p.Name, p.Tries, p.Ms, probeBound, p.Detail)
 		}
 		cn := out.Counters
-		nontrivial := cn["inj_stream"] > 0 && cn["inj_pubsub"] > 0 && cn["inj_handler"] > 0 && cn["inj_download_reply"] > 0 && answered == len(out.Probes) && answered > 0
+		if c.Replay != "" && os.Getenv("VERIF_C33_DEBUG") != "" {
+			b, _ := json.MarshalIndent(cn, "", " ")
+			fmt.Fprintln(os.Stderr, string(b))
+		}
+		poisoned := 0
+		for _, p := range out.Probes {
+			if !p.OK && strings.HasSuffix(p.Name, ":height-window-poisoned") {
+				poisoned++
+			}
+		}
+		nontrivial := cn["inj_stream"] > 0 && cn["inj_pubsub"] > 0 && cn["inj_handler"] > 0 && cn["inj_download_reply"] > 0 && answered+poisoned == len(out.Probes) && answered > 0
 		c.Case(lib.Fingerprint([]any{in.Seed, j.race}), nontrivial, map[string]any{"batch": j.idx, "race": j.race, "scenarios": in.N, "injections": map[string]int64{
 			"stream": cn["inj_stream"], "pubsub": cn["inj_pubsub"], "handler": cn["inj_handler"], "download_reply": cn["inj_download_reply"], "peerinfo_reply": cn["inj_peerinfo_reply"], "version_reply": cn["inj_version_reply"]},
 			"probes_answered": answered, "wall_ms": res.WallMs})
